@@ -592,10 +592,10 @@ def run(tier, seed):
     sizes = list(range(top + 1))
     res = common.pmap(_chunk, sizes, (seed, square), chunks=min(len(sizes), common.NWORKERS * 4))
     # (chk 300: ranges that start beyond AES block 9, where the decimal and the hexadecimal spelling of the block
-    # number part ways; 4200: beyond block 255)
+    # number part ways; 600: more segments)
     kinds = [("lit", 0), ("lit", 1), ("lit", 55), ("chk", 56), ("chk", 100), ("chk", 300), ("sdmf", 1), ("sdmf", 56), ("mdmf", 1), ("mdmf", 56), ("mdmf", 100)]
     if tier != "quick":
-        kinds += [("chk", 57), ("chk", 4200), ("sdmf", 0), ("sdmf", 100), ("sdmf", 300), ("mdmf", 0), ("mdmf", 300)]
+        kinds += [("chk", 57), ("chk", 600), ("sdmf", 0), ("sdmf", 100), ("sdmf", 300), ("mdmf", 0), ("mdmf", 300)]
     res.merge(common.pmap(_grid_chunk, kinds, (seed,), chunks=len(kinds)))
     statuses = sorted(k.split(":", 1)[1] for k in res.counts if k.startswith("outcome:"))
     cov = {
